@@ -52,7 +52,8 @@ def _worker(prop, verif_seed, lo, hi, tier, wall_cap):
             except Exception:
                 agg["errors"].append((i, seed, traceback.format_exc()))
                 break
-            agg["runs"] += 1
+            agg["runs"] += r.get("extra", {}).pop("evaluations", 1)
+            agg["scenarios"] = agg.get("scenarios", 0) + 1
             agg["digests"][i] = r["digest"]
             if r.get("nontrivial"):
                 agg["nontrivial"].add(r["digest"][:16])
@@ -66,7 +67,12 @@ def _worker(prop, verif_seed, lo, hi, tier, wall_cap):
             agg["sim_seconds"] += r.get("sim_seconds", 0.0)
             agg["abstract_states"] += r.get("abstract_states", 0)
             agg["iterations"] += r.get("iterations", 0)
-            if r["violation"] is not None and len(agg["violations"]) < 40:
+            if r.get("violations_all"):
+                for v in r["violations_all"]:
+                    if len(agg["violations"]) < 200:
+                        agg["violations"].append(dict(i=i, seed=seed, signature=v["signature"], detail=v["detail"],
+                                                      knobs=r["knobs"], ops=v["ops"], digest=None))
+            elif r["violation"] is not None and len(agg["violations"]) < 40:
                 agg["violations"].append(dict(i=i, seed=seed, signature=r["violation"], detail=r["detail"],
                                               knobs=r["knobs"], ops=r["ops"], digest=r["digest"]))
             if len(agg["samples"]) < 2 and r.get("nontrivial"):
@@ -156,7 +162,9 @@ def match_known(sig, known):
     for e in known:
         if e["property"] != sig["property"] or e["rule"] != sig["rule"]:
             continue
-        if all(str(sig["facets"].get(k)) == str(v) for k, v in e.get("facets", {}).items()):
+        if not all(str(sig["facets"].get(k)) == str(v) for k, v in e.get("facets", {}).items()):
+            continue
+        if all(str(sig["facets"].get(k)) in [str(x) for x in vs] for k, vs in e.get("facets_in", {}).items()):
             return e
     return None
 
@@ -314,15 +322,37 @@ def main(argv=None):
     exit_code = 0
     reported = []
     n_known = 0
+    known_hit = {}
+    min_budget = float(chk.__dict__.get("MINIMISE_TOTAL_S", 150.0))
+    t_min = time.time()
     for key, vs in sorted(groups.items()):
-        if len(reported) >= 6:
-            break
         rec = vs[0]
-        if not args.no_minimise:
+        e = match_known(rec["signature"], known)
+        if e is not None:
+            # a listed finding: no need to minimise, but the recorded op list must replay
+            chk_r = _run_one(chk, replay=dict(knobs=rec["knobs"], ops=rec["ops"], seed=rec["seed"]))
+            if chk_r["violation"] is None or _sig_key(chk_r["violation"]) != key:
+                print(f"HARNESS-ERROR violation {key} of run {rec['i']} does not replay from its recorded op list")
+                return 2
+            known_hit.setdefault(e["id"], [e, 0])
+            known_hit[e["id"]][1] += len(vs)
+            continue
+        if len(reported) >= 8:
+            exit_code = 1
+            continue
+        if not args.no_minimise and time.time() - t_min < min_budget:
             rec, cands = minimise(chk, rec, budget_s=chk.__dict__.get("MINIMISE_S", 40.0))
+        else:
+            r0 = _run_one(chk, replay=dict(knobs=rec["knobs"], ops=rec["ops"], seed=rec["seed"]))
+            rec = dict(rec, signature=r0["violation"], detail=r0["detail"], digest=r0["digest"])
         if rec["signature"] is None:
             print(f"HARNESS-ERROR violation {key} of run {vs[0]['i']} does not replay from its recorded op list")
             return 2
+        e = match_known(rec["signature"], known)
+        if e is not None:
+            known_hit.setdefault(e["id"], [e, 0])
+            known_hit[e["id"]][1] += len(vs)
+            continue
         mkey = _sig_key(rec["signature"])
         tag = f"{rec['signature']['rule']}-{rec['seed']}"
         path = write_replay(prop, rec, tag)
@@ -330,21 +360,15 @@ def main(argv=None):
         if not ok:
             print(f"HARNESS-ERROR replay {path} did not reproduce in a fresh process:\n{out}")
             return 2
-        e = match_known(rec["signature"], known)
-        if e is not None:
-            n_known += 1
-            print(f"KNOWN-FINDING: property={prop} {e['id']}: {e['what']} (e.g. replay={path}; {len(vs)} runs)")
-            try:
-                os.remove(path)
-            except OSError:
-                pass
-        else:
-            exit_code = 1
-            reported.append(mkey)
-            print(f"  {rec['signature']['rule']}: {rec['detail']}")
-            print(f"  facets={rec['signature']['facets']} seen in {len(vs)} of {total['runs']} runs; "
-                  f"minimised to {len(rec['ops'])} ops")
-            print(f"VIOLATION property={prop} replay={path}")
+        exit_code = 1
+        reported.append(mkey)
+        print(f"  {rec['signature']['rule']}: {rec['detail']}")
+        print(f"  facets={rec['signature']['facets']} seen in {len(vs)} of {total['runs']} runs; "
+              f"minimised to {len(rec['ops'])} ops")
+        print(f"VIOLATION property={prop} replay={path}")
+    for fid, (e, n) in sorted(known_hit.items()):
+        n_known += 1
+        print(f"KNOWN-FINDING: property={prop} {fid}: {e['what']} ({n} executions in this run)")
 
     wall = time.time() - t0
     if not args.no_evidence:
